@@ -279,6 +279,7 @@ func TestVerifC40(t *testing.T) {
 	for k := range ops {
 		ks = append(ks, k)
 		r.Distinct("op:" + k)
+		r.EvalN(ops[k]) // every client operation is an evaluated case; distinct = (operation, outcome) classes + rounds
 	}
 	sort.Strings(ks)
 	for _, k := range ks {
